@@ -24,7 +24,7 @@ import traceback
 sys.path.insert(0, os.path.dirname(os.path.abspath(__file__)))
 
 from vlib import gen, oracle
-from vlib.core import VERIF, Raw, Some, Z, coq, main, standard_proof_steps
+from vlib.core import VERIF, Raw, Some, Z, coq, main, standard_proof_steps, tree_lit
 
 PROP = "C04"
 GETTERS = {
@@ -820,6 +820,12 @@ def run_history(hist, mode, with_model=True, check_every=True):
                 bad = check_value(probe, net, arrays, cop, dense_cache)
                 if bad is None and tree.multiplicity > 1:
                     feat("contract_sliced")
+                if bad is None and with_model and res["steps"] and res["steps"][-1]["step"] == si:
+                    # the state in which the contraction just ran: must pass the readiness check of
+                    # Model/TreeStateProg.v (C02_state_value then gives its value)
+                    tr.active = False
+                    res["steps"][-1]["ready"] = state_coq(observe(probe, tr))
+                    res["steps"][-1]["tree"] = tree_lit(gen.tree_nested(probe))
             tr.active = False
             if bad:
                 res["failure"] = {"step": si, "kind": "oracle", "what": "after %s: %s" % (op["kind"], bad)}
@@ -974,6 +980,11 @@ def run_property(ctx, mode):
                               "%s %s %s" % ("cost_inv_b" if mode == "C04" else "recipe_inv_b", netl, s["post"]),
                               "true"))
             inv_rec.append((h, s, r.get("flags", [])))
+            if mode == "C02" and "ready" in s:
+                inv_cases.append(("h%d.s%d.%s.ready" % (hi, s["step"], s["kind"]),
+                                  "contractible_b %s %s %s" % (netl, s["ready"], s["tree"]), "true"))
+                inv_rec.append((h, s, r.get("flags", [])))
+                ctx.count("ready_states_checked")
             ctx.count("trace_events", s["nev"])
     t0 = time.time()
     failing = ctx.coq_cases(mode.lower() + "_trace", ["TreeState"], cases, chunk=max(20, len(cases) // 48 + 1),
@@ -989,7 +1000,7 @@ def run_property(ctx, mode):
                  found_input=False)
     # the verified checkers, evaluated inside Coq on every state the real tree reached
     t0 = time.time()
-    failing = ctx.coq_cases(mode.lower() + "_inv", ["TreeState"], inv_cases,
+    failing = ctx.coq_cases(mode.lower() + "_inv", ["TreeState"] + (["TreeStateProg"] if mode == "C02" else []), inv_cases,
                             chunk=max(20, len(inv_cases) // 48 + 1), timeout=900)
     ctx.log("invariant checkers on %d observed states in %.1fs, %d failing" % (len(inv_cases), time.time() - t0, len(failing)))
     shown = 0
@@ -1002,7 +1013,9 @@ def run_property(ctx, mode):
             shown += 1
             if shown > 5:
                 continue
-        ctx.fail("an observed state violates the invariant %s" % ("cost_inv_b" if mode == "C04" else "recipe_inv_b"),
+        ctx.fail("an observed state violates %s" % ("the invariant cost_inv_b" if mode == "C04" else
+                 ("the readiness check contractible_b (state right after a contraction)" if label.endswith(".ready")
+                  else "the invariant recipe_inv_b")),
                  {"label": label, "history": {k: h.get(k) for k in ("inputs", "output", "size_dict", "path", "ops", "aseed", "probe")},
                   "step": s.get("step"), "op": s.get("kind"), "state": s.get("post"), "checkers": val,
                   "correspondence": "checker cost_inv_b (C04, soundness proved) / predicate recipe_inv_b (C02) of Model/TreeState.v on the observed state"},
